@@ -1651,7 +1651,11 @@ func (s *BgpServer) handleFSMMessage(peer *peer, e *fsmMsg) {
 		conf.State.SessionState = oc.IntToSessionStateMap[int(nextState)]
 		peer.fsm.pConf.Update(&conf)
 
-		nextStateIdle := conf.GracefulRestart.State.PeerRestarting && nextState == bgp.BGP_FSM_IDLE
+		// RFC 4724 4.2: stale routes are retained until the restart timer expires; a
+		// connection attempt that fails during the restart window (OPENSENT/OPENCONFIRM
+		// falling back to IDLE) must not end the retention early.
+		nextStateIdle := conf.GracefulRestart.State.PeerRestarting && nextState == bgp.BGP_FSM_IDLE &&
+			e.StateReason != nil && (e.StateReason.Type == fsmRestartTimerExpired || e.StateReason.Type == fsmAdminDown)
 		peer.fsm.lock.Unlock()
 
 		// PeerDown
